@@ -125,6 +125,37 @@ def history_unit(u) -> Stats:
     return st
 
 
+# generators whose construction contains a data-dependent loop / re-draw: a rare seed may take a path ordinary seeds never take
+LOOPY = ("factory_cheerleader", "covg_fn_generator", "k_budget_generator", "xs2", "xs3", "xs6", "graph_ws_connected", "graph_cycle")
+
+
+def sweep_unit(u) -> Stats:
+    """Determinism over a LONG seed window for one generator and player count: two identically seeded calls per seed."""
+    name, n, lo, hi = u
+    st = Stats()
+    for seed in range(lo, hi):
+        try:
+            v1 = np.array(gens.draw_game(name, n, seed).get_values(), copy=True)
+            v2 = np.asarray(gens.draw_game(name, n, seed).get_values())
+        except Exception as e:  # noqa: BLE001
+            st.violation(f"[generator {name} n={n} seed={seed}] raised {type(e).__name__}: {e}", generator=name, n=n, gen_seed=seed)
+            return st
+        st.states += 1
+        st.transitions += 2
+        st.evals += 1
+        if not np.array_equal(v1, v2):
+            st.violation(f"[generator {name} n={n} seed={seed}] identically seeded calls returned different games: {v1.tolist()[:12]}... vs {v2.tolist()[:12]}...",
+                         generator=name, n=n, gen_seed=seed)
+            return st
+        if seed % 64 == 0:
+            msg = class_check(name, n, v1)
+            if msg:
+                st.violation(f"[generator {name} n={n} seed={seed}] {msg}", generator=name, n=n, gen_seed=seed)
+                return st
+    st.nontrivial += hi - lo
+    return st
+
+
 def cost(u) -> float:
     name, n, seeds = u
     w = 40 if name == "oxs" else 3 if name.startswith(("covg", "xos", "xs")) else 1
@@ -154,10 +185,23 @@ def run(run: Run) -> None:
     run.bounds = {"generators": len(gens.names()), "n": [ns[0], ns[-1]], "seed_window": [seeds[0], seeds[-1]]}
     run.assumptions = ["'all seeds' is met by a complete window that VERIF_SEED moves", "'convex' cannot run here (external dependency missing)"]
     run.add(fanout(unit, sorted(us, key=lambda u: -cost(u)), chunk=1))
+    # long seed windows (rare-seed paths): 4096 seeds (thorough 16384) for the generators with data-dependent loops at n = 3 and 7
+    span = 4096 if quick else 16384
+    sweeps = []
+    for name in (LOOPY if quick else [g for g in gens.names() if not gens.is_unseeded(g) and g not in ("oxs", "xos12", "xos12_norm_additive")]):
+        if name not in gens.names() or gens.is_unseeded(name):
+            continue
+        for n in ((3, 7) if name in LOOPY else (7,)):
+            base0 = span * seed
+            for lo in range(base0, base0 + span, 512):
+                sweeps.append((name, n, lo, lo + 512))
+    run.add(fanout(sweep_unit, sweeps, chunk=1))
     from ..core import fresh_forks
     hist_ns = [3, 4, 5, 6] if quick else [3, 4, 5, 6, 7]
     hus = [(name, hist_ns if name != "oxs" else hist_ns[:3], seeds[:2]) for name in gens.names() if not gens.is_unseeded(name)]
     run.add(fresh_forks(history_unit, hus, procs=14))
+    run.rule += (f"; determinism over a long seed window [{span}*VERIF_SEED, +{span}) for the generators with data-dependent loops (all cheap seeded "
+                 "generators in the thorough tier)")
     run.rule += ("; call histories: for every seeded generator, in a freshly forked process, every ordered pair of player counts and a descending sweep - a "
                  "seeded call must return what it returned first; the first result is scribbled over before the second identically seeded call")
 
